@@ -514,63 +514,52 @@ def r06_5(ctx):
     ok0 = bool(w) and any(ast.unparse(t).replace(" ", "") == "%s==0" % g0.params[2] and p for t, p in ctx.scope(g0).guards(w[0]))
     ctx.check(ok0, "FixedGrid.get_t0_local: first local start time is t0", detail="t0_local[0]", expected="return t0 when k==0",
               found="; ".join(ast.unparse(x) for x in walk_no_nested(g0.node) if isinstance(x, ast.Return)), fi=g0)
-    # control-grid assembly
+    # control-grid assembly: add_variables_V_control_finalize run by the simulator (rkverif/sim.py) for the three localisation modes
+    from ..sim import Sim, fresh_obj
+    from ..layout import Sym, Obj, freeze, LayoutUnknown
+    from .layout_rules import sym_poly
     fin = prog.own_method("SamplingMethod", "add_variables_V_control_finalize")
-    nf = ctx.norm(fin)
-    scf = ctx.scope(fin)
-    asg = [a for a in walk_no_nested(fin.node) if isinstance(a, ast.Assign) and ast.unparse(a.targets[0]) == "self.control_grid"]
-    forms = {}
-    for a in asg:
-        gs = [("" if p else "not ") + ast.unparse(t) for t, p in scf.guards(a)]
-        forms[" and ".join(gs)] = a
-    want = {
-        "self.time_grid.localize_t0": "hcat(self.t0_local)",
-        "not self.time_grid.localize_t0 and self.time_grid.localize_T": None,
-        "not self.time_grid.localize_t0 and not self.time_grid.localize_T": "self.time_grid(self.t0,self.T,self.N)",
-    }
-    for cond, text in want.items():
-        a = forms.get(cond)
-        if a is None:
-            ctx.fail("control grid assembly (%s)" % cond, detail="branch missing", expected=text or "cumulative sum of T_local from t0", found="absent", fi=fin)
-            continue
-        if text is not None:
-            ctx.check(nf.key(a.value) == text, "control grid assembly (%s)" % cond, detail="control grid source", expected=text, found=nf.key(a.value), fi=fin, node=a)
+    NN = 3
+    for cond, (lt0, lT) in (("self.time_grid.localize_t0", (True, False)), ("not self.time_grid.localize_t0 and self.time_grid.localize_T", (False, True)),
+                            ("not self.time_grid.localize_t0 and not self.time_grid.localize_T", (False, False))):
+        t0, T = Sym("t0"), Sym("T")
+        Tl = [Sym("T_local", q) for q in range(NN)]
+        t0l = [Sym("t0_local", q) for q in range(NN)] + [None]
+        tg = fresh_obj("time_grid", localize_t0=lt0, localize_T=lT)
+        me = fresh_obj("self", N=NN, t0=t0, T=T, T_local=list(Tl), t0_local=list(t0l), time_grid=tg, V_control_plus=[])
+        stage = fresh_obj("stage", variables={"control+": [], "control": [], "": []})
+        fin_args = []
+        hooks = {"hcat": lambda s_, r, a, k, n: ("hcat", list(a[0])) if a and isinstance(a[0], list) else NotImplemented,
+                 "self.time_grid": lambda s_, r, a, k, n: ("grid", [freeze(x) for x in a]),
+                 ".bounds_finalize": lambda s_, r, a, k, n: fin_args.append(list(a))}
+        try:
+            sim_ = Sim(prog, hooks=hooks)
+            sim_.cfg.update({"localize_t0": lt0, "localize_T": lT})
+            sim_.call(fin, [me, stage, Sym("opti")], {})
+        except LayoutUnknown as e:
+            raise AnalysisError("add_variables_V_control_finalize could not be simulated (%s): %s" % (cond, e))
+        cg = me.attrs.get("control_grid")
+        if lt0:
+            got_l = me.attrs["t0_local"]
+            ok = isinstance(cg, tuple) and cg[0] == "hcat" and len(cg[1]) == NN + 1 and [freeze(x) for x in cg[1][:NN]] == [freeze(x) for x in t0l[:NN]] and cg[1][NN] is got_l[NN] and got_l[NN] is not None
+            ctx.check(ok, "control grid assembly (%s)" % cond, detail="control grid source", expected="hcat(self.t0_local) with a fresh variable for the final node", found=str(cg)[:120], fi=fin)
+        elif lT:
+            ok = isinstance(cg, tuple) and cg[0] == "hcat" and len(cg[1]) == NN + 1
+            if ok:
+                acc = sym_poly(freeze(t0))
+                for q in range(NN + 1):
+                    if sym_poly(freeze(cg[1][q])) != acc:
+                        ok = False
+                    if q < NN:
+                        acc = acc + sym_poly(freeze(Tl[q]))
+            ctx.check(ok, "control grid assembly (%s)" % cond, detail="cumulative sum of local interval lengths", expected="hcat([t0, t0+T_0, t0+T_0+T_1, ...])", found=str(cg)[:160], fi=fin)
         else:
-            # hcat(cumsum) with cumsum = [t0]; for e in T_local: cumsum.append(cumsum[-1]+e)
-            v = a.value
-            okc = isinstance(v, ast.Call) and ast.unparse(v.func) == "hcat" and v.args and isinstance(v.args[0], ast.Name)
-            if okc:
-                nm = v.args[0].id
-                init = [s for s in walk_no_nested(fin.node) if isinstance(s, ast.Assign) and ast.unparse(s.targets[0]) == nm]
-                okc = len(init) == 1 and isinstance(init[0].value, ast.List) and len(init[0].value.elts) == 1 and nf.key(init[0].value.elts[0]) == "self.t0"
-                apps = [c for c in walk_no_nested(fin.node) if is_call_to(c, "append", nm)]
-                okc = okc and len(apps) == 1
-                if okc:
-                    loops = scf.enclosing_loops(apps[0])
-                    okc = len(loops) == 1
-                    if okc:
-                        # accepted loop headers: for e in T_local / for k, e in enumerate(T_local) / for k in range(len(T_local))
-                        tgt, it = loops[0][0], loops[0][1]
-                        idx = elem = None
-                        if ast.unparse(it) == "self.T_local" and isinstance(tgt, ast.Name):
-                            elem = tgt.id
-                        elif ast.unparse(it) == "enumerate(self.T_local)" and isinstance(tgt, ast.Tuple) and len(tgt.elts) == 2 and all(isinstance(x, ast.Name) for x in tgt.elts):
-                            idx, elem = tgt.elts[0].id, tgt.elts[1].id
-                        elif ast.unparse(it) == "range(len(self.T_local))" and isinstance(tgt, ast.Name):
-                            idx, elem = tgt.id, "self.T_local[%s]" % tgt.id
-                        got = Norm(None).poly(apps[0].args[0])
-                        elems = [Poly.atom(elem)] if elem else []
-                        if idx and elem:
-                            elems.append(Poly.atom("self.T_local[%s]" % idx))
-                        # the list has k+1 entries when interval k is appended: cumsum[-1] and cumsum[k] are the same entry
-                        lasts = [Poly.atom("%s[-1]" % nm)] + ([Poly.atom("%s[%s]" % (nm, idx))] if idx else [])
-                        okc = any(got == a + b for a in lasts for b in elems)
-            ctx.check(okc, "control grid assembly (%s)" % cond, detail="cumulative sum of local interval lengths",
-                      expected="hcat([t0, t0+T_0, t0+T_0+T_1, ...])", found=ast.unparse(a.value), fi=fin, node=a)
-    bf = [c for c in walk_no_nested(fin.node) if is_call_to(c, "bounds_finalize", "self.time_grid")]
-    okb = len(bf) == 1 and [nf.key(x) for x in bf[0].args] == ["opti", "self.control_grid", "self.t0_local", "self.T + self.t0", "self.N"] and not scf.guards(bf[0])
-    ctx.check(okb, "bounds_finalize receives tf = t0+T", detail="final-time closure", expected="bounds_finalize(opti, control_grid, t0_local, t0+T, N), unconditional",
-              found="; ".join(ast.unparse(c) for c in bf) or "no call", fi=fin)
+            ok = cg == ("grid", [freeze(t0), freeze(T), NN])
+            ctx.check(ok, "control grid assembly (%s)" % cond, detail="control grid source", expected="self.time_grid(self.t0, self.T, self.N)", found=str(cg)[:120], fi=fin)
+        okb = len(fin_args) == 1 and len(fin_args[0]) == 5 and freeze(fin_args[0][0]) == freeze(Sym("opti")) and fin_args[0][1] is cg and fin_args[0][2] is me.attrs["t0_local"] \
+            and sym_poly(freeze(fin_args[0][3])) == sym_poly(freeze(t0)) + sym_poly(freeze(T)) and fin_args[0][4] == NN
+        ctx.check(okb, "bounds_finalize receives tf = t0+T (%s)" % cond, detail="final-time closure", expected="bounds_finalize(opti, control_grid, t0_local, t0+T, N), unconditional",
+                  found=str(fin_args)[:160] or "no call", fi=fin)
     fb = prog.own_method("FreeGrid", "bounds_finalize")
     sub = [c for c in walk_no_nested(fb.node) if is_call_to(c, "subject_to")]
     okf = len(sub) == 1 and sub[0].args and Norm(None).key(sub[0].args[0]) == Norm(None).key(ast.parse("%s[-1]==%s" % (fb.params[2], fb.params[4]), mode="eval").body) \
